@@ -45,6 +45,20 @@ Section Spec.
              (pr ++ ci ++ rest, ch)
     end.
 
+  (* may_<event>: for each candidate in order prepare_event, its prepare callbacks and its
+     checks; stops after the first candidate whose checks all pass; nothing else runs *)
+  Fixpoint may_scan (st : state) (cands : list trans) (p : nat) : list item * bool :=
+    match cands with
+    | [] => ([], false)
+    | t :: r =>
+        let pe := items SPrepareEvent None st (m_prepare_event mc) p in
+        let pr := items SPrepare None st (t_prepare t) (p + length pe) in
+        let (ci, ok) := cond_items st (t_conds t) (p + length pe + length pr) in
+        if ok then (pe ++ pr ++ ci, true)
+        else let (rest, b) := may_scan st r (p + length pe + length pr + length ci) in
+             (pe ++ pr ++ ci ++ rest, b)
+    end.
+
   Definition sdef_of (s : state) : sdef :=
     match get_state mc s with Some d => d | None => mkSdef [] [] false None end.
 
